@@ -52,8 +52,16 @@ def reference(Tn, Bn, Mk, Nt, r, V, boot, lam, gam):
 
 
 def one(I, Tn, Bn):
-  Mk, Nt = symarr('M', (Tn, Bn)), symarr('N', (Tn, Bn))
-  tr, te = 1 - Mk, 1 - Nt   # invertible affine re-parameterisation of the masks
+  # the masks are 0/1 valued: idempotent boolean atoms (m * m = m), re-parameterised as
+  # Mk = 1 - truncation, Nt = 1 - termination
+  def batoms(tag):
+    a = np.empty((Tn, Bn), dtype=object)
+    for t in range(Tn):
+      for b in range(Bn):
+        a[t, b] = Rat(Poly.sym(avn.atom_key('bool', (tag, t, b), (tag, t, b))))
+    return a
+  Mk, Nt = batoms('M'), batoms('N')
+  tr, te = 1 - Mk, 1 - Nt
   r, V = symarr('r', (Tn, Bn)), symarr('V', (Tn, Bn))
   boot = symarr('b', (Bn,))
   lam, gam = sym('lam'), sym('gam')
